@@ -379,7 +379,8 @@ def glue(ctx, exe, drv, thorough):
     """MarshalledMessageBody::validate(), MarshalledMessage::unmarshall_all and wire::unmarshal::unmarshal_body on bodies built
     with from_parts from (signature, bytes). The property predicate is evaluated on the implementation's own single-value decoders
     (checked against the specification by the streams above): validate() = every type of the signature validates in turn from
-    offset 0 AND all bytes are used; unmarshall_all / unmarshal_body accept exactly then too (D30: they used to ignore bytes after
+    offset 0 AND all bytes are used (theorems C03_body_agree, C03_body_values; the extracted op_body_validate / body_unmarshall_all
+    are compared as the tie); unmarshall_all / unmarshal_body accept exactly then too (D30: they used to ignore bytes after
     the last value) and return the values of the dynamic decoder on every type in turn."""
     r = ctx.sub_rng("c03-glue")
     cat = [ty for ty in wg.catalogue() if not wg.count_leaves(wg.parse_ext(ty), "h")]
@@ -435,7 +436,7 @@ def glue(ctx, exe, drv, thorough):
     if not ok:
         ctx.tie_broken("wire harness crashed (glue)", err)
         return 0
-    ok, mout, err = vlib.par_run_lines(drv, [], [l if l[:2] in ("VR", "UP") else "SE le 0 y 0" for l in lines])
+    ok, mout, err = vlib.par_run_lines(drv, [], [l if l[:2] in ("VR", "UP", "BV", "BA") else "SE le 0 y 0" for l in lines])
     if not ok:
         ctx.tie_broken("extracted decoder model crashed (glue)", err)
         return 0
@@ -490,6 +491,10 @@ def glue(ctx, exe, drv, thorough):
         if why:
             ctx.disagreements_checked += 1
             ctx.violation(why, {"lines": lines[5 * ci:5 * ci + 5], "impl": [x[:500] for x in out[5 * ci:5 * ci + 5]], "kind": "glue:" + kind})
+        elif bv != mout[5 * ci] or (ba.split(" ")[0], wg.canon(" ".join(ba.split(" ")[2:]))) != (mout[5 * ci + 1].split(" ")[0], wg.canon(" ".join(mout[5 * ci + 1].split(" ")[2:]))):
+            ctx.disagreements_checked += 1
+            ctx.tie_broken("correspondence: the whole-body models (op_body_validate, body_unmarshall_all) and the implementation differ",
+                           "%s\nimpl: %s\nmodel: %s" % (lines[5 * ci], out[5 * ci:5 * ci + 2], mout[5 * ci:5 * ci + 2]))
         elif sig and (vr != mout[5 * ci + 3] or (s_up, n_up, wg.canon(v_up)) != (lambda m: (m[0], m[1], wg.canon(m[2])))(split_res(mout[5 * ci + 4]))):
             ctx.disagreements_checked += 1
             ctx.tie_broken("correspondence: decoder models and implementation differ (glue stream)",
